@@ -128,6 +128,17 @@ func (x *Exec) calleeKey(c *ssa.CallCommon) string {
 	if b, ok := c.Value.(*ssa.Builtin); ok {
 		return "builtin." + b.Name()
 	}
+	// a function value loaded from a struct field: "<pkg>.<Type>.<field>" (the key of its fnvalue contract)
+	if u, ok := c.Value.(*ssa.UnOp); ok {
+		if fa, ok := u.X.(*ssa.FieldAddr); ok {
+			pt := deref(fa.X.Type())
+			if n, ok := pt.(*types.Named); ok && n.Obj().Pkg() != nil {
+				if st, ok := pt.Underlying().(*types.Struct); ok {
+					return n.Obj().Pkg().Path() + "." + n.Obj().Name() + "." + st.Field(fa.Field).Name()
+				}
+			}
+		}
+	}
 	return "dynamic." + c.Value.Name()
 }
 
